@@ -890,6 +890,15 @@ def np_array(ex, args, kw, st):
         return np_copy(ex, [v], kw, st)
     if isinstance(v, (tuple, list)):
         items = list(v)
+        from .symexec import NAN
+        if any(x is NAN for x in items) and all(x is NAN or is_num(x) for x in items):
+            # NaN entries: value irrelevant, element marked non-finite
+            nanpos = [k for k, x in enumerate(items) if x is NAN]
+            vals = [z3.RealVal(0) if x is NAN else real(x) for x in items]
+            out = np_array(ex, [tuple(vals)], kw, st)
+            out.kind = 'real'
+            out.finite = lambda idx, nanpos=nanpos: z3.And(*[num_term(idx[0]) != k for k in nanpos])
+            return out
         if all(is_num(x) for x in items):
             kind = 'real' if any(is_reallike(x) for x in items) else 'int'
 
